@@ -259,6 +259,18 @@ func genC13(r *vc.Run) {
 							r.Violate("mta-shares-wrong", "alpha + beta != a*b mod q", vc.Line("mta_run", args))
 						}
 					}
+					// a ciphertext altered in transit (also to the negative integer, to the mirror N^2 - c, to c + N^2): never a completed exchange
+					if av.BitLen() > 1 && bv.BitLen() > 1 || r.Thorough() {
+						for _, tm := range []string{"cA-neg", "cB-neg", "cA-mirror", "cB-mirror", "cA-plusN2", "cB-plusN2", "cA+1", "cB+1"} {
+							for mi, B := range modes {
+								targs := []val.V{val.A("secp256k1"), val.B(session), skV(kA.PaillierSK), pa, pb, val.I(av), val.I(bv), B, rnd(), val.A(tm)}
+								to := r.Case(fmt.Sprintf("mta/transit/%s/wc=%v", tm, mi == 1), true, "mta_run", targs...)
+								if tl, ok := to.(val.List); ok && len(tl) > 0 && tl[0].String() == "Done" {
+									r.Violate("mta-altered-ciphertext-accepted", "the exchange completes although a ciphertext was altered in transit ("+tm+")", vc.Line("mta_run", targs))
+								}
+							}
+						}
+					}
 					// wrong public point: B' = (b+1)*G must be rejected by Alice
 					Bw, _ := vc.Exec("ec_base_mul", []val.V{val.A("secp256k1"), val.I(add(bv, 1))})
 					bwl, isl := Bw.(val.List)
@@ -335,6 +347,9 @@ func c13DishonestBob(r *vc.Run, g rng) {
 	G := crypto.ScalarBaseMult(ec, big.NewInt(1))
 	for _, bv := range []*big.Int{big.NewInt(0), big.NewInt(0), big.NewInt(1), g.below(q)} {
 		for ai, alpha := range []*big.Int{mul(q, add(g.below(mul(q, q)), 1)), new(big.Int).Set(q), big.NewInt(0), g.below(q3)} {
+			if ai == 2 && bv.Sign() != 0 {
+				alpha = add(g.below(add(q, -1)), 1) // a unit, for the mirrored claim below
+			}
 			a := g.below(q)
 			c1 := enc(a, g.unit(N))
 			y, rB := g.below(q5), g.unit(N)
@@ -343,6 +358,11 @@ func c13DishonestBob(r *vc.Run, g rng) {
 			U := G
 			if ai%2 == 1 {
 				U = crypto.ScalarBaseMult(ec, add(g.below(add(q, -1)), 1))
+			}
+			// the mirrored claim: X = -b*G with U = -alpha*G (every x coordinate agrees with the honest transcript)
+			if ai == 2 && bv.Sign() != 0 && new(big.Int).Mod(alpha, q).Sign() != 0 {
+				claimed = crypto.ScalarBaseMult(ec, new(big.Int).Sub(q, new(big.Int).Mod(bv, q)))
+				U = crypto.ScalarBaseMult(ec, new(big.Int).Sub(q, new(big.Int).Mod(alpha, q)))
 			}
 			control := bv.Sign() != 0 && ai == 3 && bv.BitLen() > 1 // the same Bob telling the truth: must be accepted (validates this forger)
 			if control {
@@ -381,6 +401,20 @@ func c13DishonestBob(r *vc.Run, g rng) {
 			o := r.Case("dishonest-bob/"+cls, true, "bobwc_verify", args...)
 			if o.String() == okb(true).String() {
 				r.Violate("mta-wrong-point-accepted", "Alice's verifier accepts a response whose public point is not b*G ("+cls+")", vc.Line("bobwc_verify", args))
+			}
+			// the adaptive variant: U chosen AFTER the challenge so that s1*G = e*X' + U holds for the wrong point X'
+			// (works only if U does not enter the challenge)
+			if new(big.Int).Mod(s1, q).Sign() != 0 {
+				s1G := crypto.ScalarBaseMult(ec, new(big.Int).Mod(s1, q))
+				eX := claimed.ScalarMult(new(big.Int).Mod(new(big.Int).Neg(e), q))
+				if U2, err := s1G.Add(eX); err == nil {
+					args2 := append([]val.V{}, args...)
+					args2[9] = pointV(U2)
+					o2 := r.Case("dishonest-bob/adaptive-U", true, "bobwc_verify", args2...)
+					if o2.String() == okb(true).String() {
+						r.Violate("mta-wrong-point-accepted", "Alice's verifier accepts a response whose public point is not b*G (U chosen after the challenge)", vc.Line("bobwc_verify", args2))
+					}
+				}
 			}
 		}
 	}
